@@ -169,15 +169,17 @@ def make_cases(rng, tree, per_tree, big):
     # strings / blobs of length exactly at and next to the limits, single special characters
     nl = 0
     for mode, base in valids:
-        if base is None or nl >= max(4, nbound):
+        if base is None or nl >= max(16, 2 * nbound):
             continue
         leaves = list(gen.leaf_paths(tree, base, ('string', 'blob')))
         rng.shuffle(leaves)
         for path, lt in leaves[:2]:
-            vs = gen.length_variants(rng, lt, mode == 'wire')
-            for x in rng.sample(vs, min(len(vs), max(3, nbound // 2))):
-                cases.append((mode, 'length', gen.subst(base, path, x), gen.gen_previous(rng, tree)))
-                nl += 1
+            # drawn from every group: ASCII lengths at the limits, the same numbers of code points in characters whose
+            # length differs in other units (bytes, UTF-16 units, normalised), single special characters
+            for vs in gen.length_variants(rng, lt, mode == 'wire', grouped=True):
+                for x in rng.sample(vs, min(len(vs), max(3, nbound // 2, len(vs) // 5))):
+                    cases.append((mode, 'length', gen.subst(base, path, x), gen.gen_previous(rng, tree)))
+                    nl += 1
     # shapes
     ns = 0
     for mode, base in valids[:2]:
@@ -390,7 +392,7 @@ def run(ctx):
     cases = []
     for c in load_corpus(ctx):
         cases.append((c, 'corpus'))
-    trees = gen.all_kind_trees(rng, maxdepth)
+    trees = gen.all_kind_trees(rng, maxdepth) + gen.length_limited_trees(rng, max(16, ntrees // 12))
     while len(trees) < ntrees:
         d = rng.choice([1, 2, 2, 3, 3, 3] + ([4, 5] if big else []))
         trees.append(gen.gen_tree(rng, min(d, maxdepth)))
